@@ -33,7 +33,7 @@ CONSTANTS Calls,       \* identifiers of the Execute calls issued with the legac
           Describable  \* server side: can the plugin schema describe itself (SelfSerialize)
 
 Supported == {1, 3}            \* supportedServerVersions in atp/client.go
-Versions  == {1, 3, 99}
+Versions  == {0, 1, 2, 3, 4, 99}     \* 2 lies between the supported ones, 0 and 4 beside them
 
 VARIABLES
   hs,        \* ReadSchema: "idle", "wrote", "ok", "err"
